@@ -30,3 +30,21 @@ Print Assumptions C10_repeat_same.
 Example C10_two_simulations :
   sym_run [[0; 1]; [2]; [0; 2]; [4]] = [[0]; [1; 0; 1; 1; 0]; [0]; [2; 2; 0; 2; 2; 0]; [2]; [2; 0]; [0; 2; 2; 0]].
 Proof. reflexivity. Qed.
+
+(* a simulate call that raises (a frac-face schedule of the wrong length, a pressure outside the table) is invisible: the final
+   state and every other output of a history are those of the history with the rejected calls removed *)
+Theorem C10_rejected_calls_are_invisible :
+  forall (Grid Sched Field Rec Curve : Type) (sim : Grid -> Field) (simS : Grid -> Sched -> Field)
+         (rf rfd : Grid -> Field -> Rec) (interp : Grid -> Rec -> Curve) (ops : list (op Grid Sched)) s,
+    fst (run _ _ _ _ _ sim simS rf rfd interp s ops)
+      = fst (run _ _ _ _ _ sim simS rf rfd interp s (filter (fun o => negb (is_bad _ _ o)) ops)) /\
+    filter (not_rej _ _) (snd (run _ _ _ _ _ sim simS rf rfd interp s ops))
+      = snd (run _ _ _ _ _ sim simS rf rfd interp s (filter (fun o => negb (is_bad _ _ o)) ops)).
+Proof. intros. apply rejected_calls_are_invisible. Qed.
+Print Assumptions C10_rejected_calls_are_invisible.
+
+Example C10_rejected_simulate_keeps_the_earlier_run :
+  sym_run [[0; 1]; [2]; [5; 2]; [2]; [4]]
+    = [[0]; [1; 0; 1; 1; 0]; [8]; [1; 0; 1; 1; 0]; [2; 1; 0; 1; 1; 0]; [1]; [1; 0]; [0; 1; 1; 0]] /\
+  sym_run [[5; 2]; [2]] = [[8]; [9]; []; []; []].
+Proof. split; reflexivity. Qed.
